@@ -98,9 +98,9 @@ func BuildTx(s TxSpec) *pb.Transaction {
 			from = []byte(ResolveAddr(in.Owner))
 		}
 		tx.TxInputs = append(tx.TxInputs, &protos.TxInput{
-			RefTxid:      in.Tx.Txid,
-			RefOffset:    int32(in.Offset),
-			FromAddr:     from,
+			RefTxid:   in.Tx.Txid,
+			RefOffset: int32(in.Offset),
+			FromAddr:  from,
 			// the canonical byte form: the state machine compares cited amounts byte-wise
 			Amount:       new(big.Int).SetBytes(o.Amount).Bytes(),
 			FrozenHeight: o.FrozenHeight,
